@@ -4,6 +4,7 @@ import XPathV.Lemmas.Facts
 import XPathV.Lemmas.PosSem
 import XPathV.Lemmas.PosSem2
 import XPathV.Lemmas.PosSem3
+import XPathV.Lemmas.ApiSem3
 /-!
 # C03 — positional predicates on child steps use the XPath proximity position
 -/
@@ -575,3 +576,101 @@ open XPathV.PosSem XPathV.PosSem3 in
 theorem C03_posCond_subset (c : Ast) (h : PosCond c) : PosCond2 c := posCond2_of_posCond c h
 
 end XPathV.Theorems.C03
+
+/-! ## C03 from the expression text
+
+`C03_main_full` / `C03_then_boolean_predicates_full` start from a parse tree and a successful
+`build`.  Here the statement starts from the expression *text*: scanner, parser, builder, the nil
+check of `Compile`, then `Select` / `Evaluate` (`Lemmas/ApiSem3.lean`).  The numeric side condition
+`f.Agree F d.length` of the plan-level theorem stays, under the quantifiers over the number algebra
+and the document it mentions; the path shape of the compiled plan — hence "`compile` does not
+answer nil query" — is obtained without it. -/
+namespace XPathV.Theorems.C03
+open XPathV XPathV.Model XPathV.Facts NumAlg
+
+open XPathV.PathSem XPathV.PredSem XPathV.PredSem2 XPathV.PosSem XPathV.ApiSem in
+/-- **C03 from the expression text**: for a text that parses into the positional step
+`q/child::a[f]` (`q` in `Frag2 true`, `f : PosForm`), `compile` at the source configuration either
+reports a *builder* error (never "empty", a parse error, lack of fuel or the nil query) or returns a
+path-shaped plan on which `Select` and `Evaluate` return exactly the oracle's node set at every
+valid context node of every well-formed document, for every number algebra that reads the
+positional form as the oracle does (`f.Agree F d.length`) -/
+theorem C03_from_text (regexOk : RegexOk) (ns : Option (List (String × String)))
+    (text : List Char) (a : AxisInfo) (ha : a.axis = "child") (q : Ast) (hq : Frag2 true q)
+    (f : PosForm)
+    (hparse : parse (fuelFor text) (defaultCfg ns) text = .ok (.filter (.axis a q) f.ast)) :
+    (∃ e, compile { regexOk := regexOk } ns text = .error (.build e)) ∨
+    (∃ p, compile { regexOk := regexOk } ns text = .ok p ∧ PathShape p ∧
+      ∀ (F : Type) [NumAlg F] (d : Doc), WF d → ∀ cfg : ECfg, cfg.nsIface = true → HashInj d cfg →
+        f.Agree F d.length → ∀ c, validRef d c = true →
+          ∃ l nsl, selectAll (F := F) d cfg p c = .ok l ∧ evaluate (F := F) d cfg p c = .ok (.nodes l) ∧
+            Spec.evalTop (F := F) d (.filter (.axis a q) f.ast) c = .ok (.nodes nsl) ∧
+            ∀ x, x ∈ l ↔ x ∈ nsl) :=
+  C03_compile_total regexOk ns text a ha q hq f hparse
+
+open XPathV.PathSem XPathV.PredSem XPathV.PredSem2 XPathV.PosSem XPathV.ApiSem in
+/-- `C03_from_text` without the `HashInj` hypothesis (`hashInj_holds`; the side condition left is
+"no element has two attributes with the same prefix, name and value") -/
+theorem C03_from_text_unconditional (regexOk : RegexOk) (ns : Option (List (String × String)))
+    (text : List Char) (a : AxisInfo) (ha : a.axis = "child") (q : Ast) (hq : Frag2 true q)
+    (f : PosForm)
+    (hparse : parse (fuelFor text) (defaultCfg ns) text = .ok (.filter (.axis a q) f.ast)) :
+    (∃ e, compile { regexOk := regexOk } ns text = .error (.build e)) ∨
+    (∃ p, compile { regexOk := regexOk } ns text = .ok p ∧ PathShape p ∧
+      ∀ (F : Type) [NumAlg F] (d : Doc), WF d → ∀ cfg : ECfg, cfg.nsIface = true →
+        AttrTriplesDistinct d →
+        f.Agree F d.length → ∀ c, validRef d c = true →
+          ∃ l nsl, selectAll (F := F) d cfg p c = .ok l ∧ evaluate (F := F) d cfg p c = .ok (.nodes l) ∧
+            Spec.evalTop (F := F) d (.filter (.axis a q) f.ast) c = .ok (.nodes nsl) ∧
+            ∀ x, x ∈ l ↔ x ∈ nsl) := by
+  rcases C03_from_text regexOk ns text a ha q hq f hparse with h | ⟨p, h1, h2, h3⟩
+  · exact .inl h
+  · exact .inr ⟨p, h1, h2, fun F _ d wf cfg hns hattr hag c hc =>
+      h3 F d wf cfg hns (hashInj_holds wf hattr cfg) hag c hc⟩
+
+open XPathV.PathSem XPathV.PredSem XPathV.PredSem2 XPathV.PosSem XPathV.ApiSem in
+/-- **C03 from the expression text, followed by boolean predicates**: the text parses into
+`q/child::a[f][b1]…[bk]` (`stackAst (.filter (.axis a q) f.ast) bs`, the `bi` in `Frag2 false`,
+listed outermost first) -/
+theorem C03_from_text_then_boolean_predicates (regexOk : RegexOk)
+    (ns : Option (List (String × String)))
+    (text : List Char) (a : AxisInfo) (ha : a.axis = "child") (q : Ast) (hq : Frag2 true q)
+    (f : PosForm) (bs : List Ast) (hbs : ∀ b ∈ bs, Frag2 false b)
+    (hparse : parse (fuelFor text) (defaultCfg ns) text =
+      .ok (stackAst (.filter (.axis a q) f.ast) bs)) :
+    (∃ e, compile { regexOk := regexOk } ns text = .error (.build e)) ∨
+    (∃ p, compile { regexOk := regexOk } ns text = .ok p ∧ PathShape p ∧
+      ∀ (F : Type) [NumAlg F] (d : Doc), WF d → ∀ cfg : ECfg, cfg.nsIface = true → HashInj d cfg →
+        f.Agree F d.length → ∀ c, validRef d c = true →
+          ∃ l nsl, selectAll (F := F) d cfg p c = .ok l ∧ evaluate (F := F) d cfg p c = .ok (.nodes l) ∧
+            Spec.evalTop (F := F) d (stackAst (.filter (.axis a q) f.ast) bs) c = .ok (.nodes nsl) ∧
+            ∀ x, x ∈ l ↔ x ∈ nsl) :=
+  C03_compile_chain_total regexOk ns text a ha q hq f bs hbs hparse
+
+open XPathV.PathSem XPathV.PredSem XPathV.PredSem2 XPathV.PosSem XPathV.ApiSem in
+/-- `C03_from_text_then_boolean_predicates` without the `HashInj` hypothesis -/
+theorem C03_from_text_then_boolean_predicates_unconditional (regexOk : RegexOk)
+    (ns : Option (List (String × String)))
+    (text : List Char) (a : AxisInfo) (ha : a.axis = "child") (q : Ast) (hq : Frag2 true q)
+    (f : PosForm) (bs : List Ast) (hbs : ∀ b ∈ bs, Frag2 false b)
+    (hparse : parse (fuelFor text) (defaultCfg ns) text =
+      .ok (stackAst (.filter (.axis a q) f.ast) bs)) :
+    (∃ e, compile { regexOk := regexOk } ns text = .error (.build e)) ∨
+    (∃ p, compile { regexOk := regexOk } ns text = .ok p ∧ PathShape p ∧
+      ∀ (F : Type) [NumAlg F] (d : Doc), WF d → ∀ cfg : ECfg, cfg.nsIface = true →
+        AttrTriplesDistinct d →
+        f.Agree F d.length → ∀ c, validRef d c = true →
+          ∃ l nsl, selectAll (F := F) d cfg p c = .ok l ∧ evaluate (F := F) d cfg p c = .ok (.nodes l) ∧
+            Spec.evalTop (F := F) d (stackAst (.filter (.axis a q) f.ast) bs) c = .ok (.nodes nsl) ∧
+            ∀ x, x ∈ l ↔ x ∈ nsl) := by
+  rcases C03_from_text_then_boolean_predicates regexOk ns text a ha q hq f bs hbs hparse with
+    h | ⟨p, h1, h2, h3⟩
+  · exact .inl h
+  · exact .inr ⟨p, h1, h2, fun F _ d wf cfg hns hattr hag c hc =>
+      h3 F d wf cfg hns (hashInj_holds wf hattr cfg) hag c hc⟩
+
+end XPathV.Theorems.C03
+
+section AxiomAuditFromText
+open XPathV.Theorems.C03
+end AxiomAuditFromText
